@@ -167,6 +167,12 @@ func (group *Group) AddRtmpPullSession(session *rtmp.PullSession) error {
 	group.mutex.Lock()
 	defer group.mutex.Unlock()
 
+	// 拉流是异步建立的，建立成功时拉流可能已经被停止了（stop_relay_pull或kick时这个session还没有挂到group上，无法关闭它）
+	if !group.pullProxy.staticRelayPullEnable && !group.pullProxy.apiEnable {
+		Log.Warnf("[%s] relay pull established but already stopped. session=%s", group.UniqueKey, session.UniqueKey())
+		return base.ErrRelayPullStopped
+	}
+
 	if group.hasInSession() {
 		Log.Errorf("[%s] in stream already exist. wanna add=%s", group.UniqueKey, session.UniqueKey())
 		return base.ErrDupInStream
@@ -202,6 +208,12 @@ func (group *Group) AddRtmpPullSession(session *rtmp.PullSession) error {
 func (group *Group) AddRtspPullSession(session *rtsp.PullSession) error {
 	group.mutex.Lock()
 	defer group.mutex.Unlock()
+
+	// 拉流是异步建立的，建立成功时拉流可能已经被停止了（stop_relay_pull或kick时这个session还没有挂到group上，无法关闭它）
+	if !group.pullProxy.staticRelayPullEnable && !group.pullProxy.apiEnable {
+		Log.Warnf("[%s] relay pull established but already stopped. session=%s", group.UniqueKey, session.UniqueKey())
+		return base.ErrRelayPullStopped
+	}
 
 	if group.hasInSession() {
 		Log.Errorf("[%s] in stream already exist. wanna add=%s", group.UniqueKey, session.UniqueKey())
